@@ -6,7 +6,7 @@ import re
 VERIF = os.path.dirname(os.path.dirname(os.path.abspath(__file__)))
 
 
-ROUNDS = """Six rounds of independent seeding (sub-agents in scratch worktrees of /repo; they see the twenty property texts, the list of
+ROUNDS = """Seven rounds of independent seeding (sub-agents in scratch worktrees of /repo; they see the twenty property texts, the list of
 earlier changes so that nothing is repeated, and nothing of /verif): `Cnn-A/B` and `Cnn-A2/B2` one agent per property (rounds 1, 2);
 `K01..K12` one agent per component (round 3); `S01..S10` per component with the instruction to damage what the recent `fix:` commits
 established without reverting them (round 4); `R01..R12` per property again, for the properties with the fewest changes so far
@@ -30,6 +30,17 @@ once (`step R f=rd`, model: `failed_get` keeps the head) and the regenerated fac
 entry it examines (C09; T04-A/B - a commit that lands late is outside the fault oracle of the models, the fact is the tie);
 compare-and-delete of a record removed after it was read (`itdel remove=1`, C11; T05-B); updates that carry a client lease and an
 Event updated within its ttl on the native-ttl engines (whole or gone, never half; C17; T06-A/B). All 16 are caught now.
+Round 7 (`M01..M10`, organised by MECHANISM instead of property: error handling on read paths / on write paths, configuration-dependent
+branches, resource lifecycle, boundary sizes and numbers, etcd response construction, native handlers, follower paths under failure,
+time, the adapters' less-used methods; 9 of 20 missed at first) -> the creator's re-read of the refusing record failing once (C01);
+the native Compact handler over an engine whose commit is slow: reads below R are refused once it has ANSWERED (`commitdelay`, C08);
+a count / list parked inside its scan while writes in the range complete: the answer is the snapshot at the revision its header names
+(C03); conditional operations begun before a real committed change of their key (C11); a partition failing for good while the worker
+of a slow partition is still scanning: one terminator, after the last batch, and the process survives (`iterslow`, C13); the node
+restarted over the same data in mid-history (Badger closed and reopened: `reopen`, C13); the dropped slow watcher's context ending
+afterwards (second DeleteWatcher) and the catch-up of a whole wrapped event cache of an odd size (C05); an Event written early in a
+wall-clock second (C17); a burst of thousands of revisions right before a take-over (C15); the regenerated fact that the peer
+/status handler reads its revision after the leader flag (C18). All 20 are caught now.
 The table is regenerated from the `result.json` files.
 
 """
